@@ -878,6 +878,47 @@ example : removeFirst [.dense [[0, 1, 2]] [[1, 2, 3]], .dense [[0, 1]] [[1, 2]]]
   exact eq_shape_mismatch.2.1 _ _ _ _ (by decide)
 
 
+/-! ## Non-finite values under `==` -/
+
+/-- What `==` does on non-finite entries (pinned: `np.allclose(…, equal_nan=True)`): NaN equals NaN and
+nothing else — a NaN on one side only is a difference; +∞ equals +∞, −∞ equals −∞, infinities of opposite
+sign or an infinity against a finite value differ; finite entries compare by the tolerance predicate. -/
+theorem close_nonfinite (a b : ℚ) :
+    closeX .nan .nan = true ∧ closeX .pinf .pinf = true ∧ closeX .ninf .ninf = true ∧
+    closeX .pinf .ninf = false ∧ closeX .ninf .pinf = false ∧
+    closeX .nan (.fin a) = false ∧ closeX (.fin a) .nan = false ∧
+    closeX .nan .pinf = false ∧ closeX .pinf .nan = false ∧ closeX .nan .ninf = false ∧ closeX .ninf .nan = false ∧
+    closeX .pinf (.fin a) = false ∧ closeX (.fin a) .pinf = false ∧
+    closeX .ninf (.fin a) = false ∧ closeX (.fin a) .ninf = false ∧
+    closeX (.fin a) (.fin b) = close a b := by
+  simp [closeX]
+
+/-- Arrays are close iff they have the same length and are close entry by entry: one entry that is NaN
+on one side only, or holds infinities of opposite sign, makes the datasets different. -/
+theorem close_list_nonfinite : ∀ v w : List XVal, closeListX v w = true ↔
+    v.length = w.length ∧ ∀ (i : Nat) (h : i < v.length) (h' : i < w.length), closeX v[i] w[i] = true
+  | [], [] => by simp [closeListX]
+  | [], b :: w => by simp [closeListX]
+  | a :: v, [] => by simp [closeListX]
+  | a :: v, b :: w => by
+    simp only [closeListX, Bool.and_eq_true, close_list_nonfinite v w, List.length_cons, Nat.add_right_cancel_iff]
+    constructor
+    · rintro ⟨h0, hl, hall⟩
+      refine ⟨hl, fun i h h' => ?_⟩
+      cases i with
+      | zero => simpa using h0
+      | succ i =>
+        have := hall i (by simpa using h) (by simpa using h')
+        simpa using this
+    · rintro ⟨hl, hall⟩
+      refine ⟨by simpa using hall 0 (by simp) (by simp), hl, fun i h h' => ?_⟩
+      have := hall (i + 1) (by simpa using h) (by simpa using h')
+      simp only [List.getElem_cons_succ] at this
+      exact this
+
+example : closeListX [.nan, .pinf] [.nan, .pinf] = true ∧ closeListX [.nan] [.fin 0] = false ∧
+    closeListX [.pinf] [.ninf] = false := by decide
+
 /-! ## Exact equality: where `==` *is* an equivalence -/
 
 /-- `==` is not transitive in general (`close_not_trans`); restricted to *exactly equal* values it
